@@ -19,9 +19,9 @@ if ! git apply "$OUT/patch.diff"; then echo "PATCH DOES NOT APPLY" | tee "$OUT/c
 echo "== build with change"; go build ./... && echo BUILD_OK
 echo "== suite with change"; go test -vet=off -count=1 -timeout 25m ./... 2>&1 | grep -v "no test files" | grep -v "^ok" ; echo "SUITE_EXIT=${PIPESTATUS[0]}"
 mkdir -p "$(dirname $DEMO)"; cp "$OUT/$(basename $DEMO)" "$DEMO"
-echo "== demo with change (expect FAIL)"; go test -vet=off -count=1 $EXTRA -run "$PAT" ./$(dirname $DEMO)/ 2>&1 | tail -15; echo "DEMO_WITH_EXIT=${PIPESTATUS[0]}"
+echo "== demo with change (expect FAIL)"; go test -vet=off -count=1 -run "$PAT" ./$(dirname $DEMO)/ $EXTRA 2>&1 | tail -15; echo "DEMO_WITH_EXIT=${PIPESTATUS[0]}"
 git apply -R "$OUT/patch.diff"
-echo "== demo without change (expect PASS)"; go test -vet=off -count=1 $EXTRA -run "$PAT" ./$(dirname $DEMO)/ 2>&1 | tail -5; echo "DEMO_WITHOUT_EXIT=${PIPESTATUS[0]}"
+echo "== demo without change (expect PASS)"; go test -vet=off -count=1 -run "$PAT" ./$(dirname $DEMO)/ $EXTRA 2>&1 | tail -5; echo "DEMO_WITHOUT_EXIT=${PIPESTATUS[0]}"
 } > "$OUT/confirm.log" 2>&1
 cd /; git -C /repo worktree remove --force "$WT"
 grep -E "BUILD_OK|SUITE_EXIT|DEMO_WITH_EXIT|DEMO_WITHOUT_EXIT" "$OUT/confirm.log"
